@@ -18,8 +18,8 @@ def gen_plan(rng, tier, config, opts):
         # so that they sit in the same functions at the same time: a static scratch buffer or cached value shared
         # between threads is overwritten between its write and its use
         k = rng.choice([2, 2, 3])
-        items = [rng.choice(['W_PSI', 'W_PSI', 'W_HASH %d' % rng.below(1000), 'W_SSS', 'W_ECIES', 'W_ECDSA',
-                             'W_MAP m%d' % rng.below(1000), 'W_MUL ' + rng.bytes(20).hex()]) for _ in range(rng.randint(2, 4))]
+        items = [rng.choice(['W_PSI', 'W_PSI', 'W_HASH %d' % rng.below(1000), 'W_SSS', 'W_ECIES', 'W_ECDSA', 'RAND', 'RAND', 'RAND',
+                             'W_MAP m%d' % rng.below(1000), 'W_MUL ' + rng.bytes(20).hex()]) for _ in range(rng.randint(2, 6))]
         for t in range(k):
             steps = ['RESEED ' + rng.bytes(8).hex(), 'EPSET ' + (curve if curve != 'BN_P256' else 'NIST_P256')] + items + ['CLRERR', 'PROBE 1']
             lines += ['THREAD %d %s' % (t, s) for s in steps]
